@@ -5,6 +5,7 @@ go 1.26.4
 require (
 	github.com/anishathalye/porcupine v1.3.0
 	github.com/gopacket/gopacket v1.6.1
+	github.com/patrickmn/go-cache v2.1.1-0.20180815053127-5633e0862627+incompatible
 	github.com/scionproto/scion v0.0.0
 	google.golang.org/protobuf v1.36.11
 )
@@ -40,7 +41,6 @@ require (
 	github.com/olekukonko/ll v0.0.8 // indirect
 	github.com/olekukonko/tablewriter v1.0.7 // indirect
 	github.com/opentracing/opentracing-go v1.2.0 // indirect
-	github.com/patrickmn/go-cache v2.1.1-0.20180815053127-5633e0862627+incompatible // indirect
 	github.com/pelletier/go-toml/v2 v2.2.4 // indirect
 	github.com/pkg/errors v0.9.1 // indirect
 	github.com/prometheus/client_golang v1.22.0 // indirect
